@@ -149,9 +149,17 @@ fn parse_case(case: &str) -> Option<Cfg> {
 }
 
 // ------------------------------------------------------------------ payloads
-/// the byte at position p of sender c's stream (clients 1..4, server handlers 50..53)
+/// the byte at position p of sender c's stream (clients 1..4, server handlers 50..53): the first byte of a
+/// stream / of every datagram names the sender, every other byte is a hash of (sender, position)
 fn pat(c: usize, p: usize) -> u8 {
-    ((p * 7 + p / 251 * 13 + p / 63001 + c * 29 + 3) & 255) as u8
+    if p % 65536 == 0 {
+        return c as u8;
+    }
+    let mut x: u64 = (p as u64 * 2654435 + c as u64 * 1000003 + 12345) & 0x3FFF_FFFF;
+    x ^= x >> 13;
+    x = (x * 40503) & 0x3FFF_FFFF;
+    x ^= x >> 9;
+    ((x >> 7) & 255) as u8
 }
 
 /// stream sockets: write k carries positions off_k .. off_k+len_k of the sender's stream;
@@ -256,6 +264,8 @@ fn with_collect<R>(f: impl FnOnce(&mut Collected) -> R) -> R {
 struct Shared {
     cfg: Cfg,
     clients_done: Semaphore,
+    /// silence after which a reader stops when it holds exactly one of the expected totals / otherwise
+    idle_short: Duration,
     idle: Duration,
 }
 
@@ -273,20 +283,28 @@ async fn do_writes(sock: &Socket, sender: usize, tcp: bool, w: &[(usize, u64)]) 
     }
 }
 
-async fn do_reads(sock: &mut Socket, tcp: bool, r: &[usize], idle: Duration, who: &str) -> Vec<(usize, Vec<u8>)> {
+/// Reads until nothing arrives for `idle` (or for `idle_short` when what was read so far is exactly one of the
+/// `targets`: byte totals for streams, datagram counts for datagram sockets).
+async fn do_reads(sock: &mut Socket, sh: &Shared, r: &[usize], targets: &[usize], who: &str) -> Vec<(usize, Vec<u8>)> {
+    let tcp = sh.cfg.tcp;
     let mut out = vec![];
     let mut i = 0;
+    let mut have = 0usize;
     loop {
         if out.len() >= MAX_READS {
             with_collect(|c| c.notes.push(format!("{} read-limit", who)));
             break;
         }
+        let idle = if targets.contains(&have) { sh.idle_short } else { sh.idle };
         if tcp {
             let n = r[i % r.len()];
             i += 1;
             match tokio::time::timeout(idle, sock.recv(n)).await {
                 Err(_) => break,
-                Ok(Ok(v)) => out.push((n, v)),
+                Ok(Ok(v)) => {
+                    have += v.len();
+                    out.push((n, v));
+                }
                 Ok(Err(e)) => {
                     with_collect(|c| c.notes.push(format!("{} recv-error {:?}", who, e)));
                     break;
@@ -295,7 +313,10 @@ async fn do_reads(sock: &mut Socket, tcp: bool, r: &[usize], idle: Duration, who
         } else {
             match tokio::time::timeout(idle, sock.recv_msg()).await {
                 Err(_) => break,
-                Ok(Ok(m)) => out.push((0, m.to_vec())),
+                Ok(Ok(m)) => {
+                    have += 1;
+                    out.push((0, m.to_vec()));
+                }
                 Ok(Err(e)) => {
                     with_collect(|c| c.notes.push(format!("{} recv_msg-error {:?}", who, e)));
                     break;
@@ -304,6 +325,14 @@ async fn do_reads(sock: &mut Socket, tcp: bool, r: &[usize], idle: Duration, who
         }
     }
     out
+}
+
+fn total_of(tcp: bool, w: &[(usize, u64)]) -> usize {
+    if tcp {
+        w.iter().map(|x| x.0).sum()
+    } else {
+        w.len()
+    }
 }
 
 struct ServerApp {
@@ -344,7 +373,8 @@ impl Protocol for ServerApp {
             let sh = self.sh.clone();
             tasks.spawn(async move {
                 do_writes(&sock, 50 + k, sh.cfg.tcp, &sh.cfg.srv_w).await;
-                let reads = do_reads(&mut sock, sh.cfg.tcp, &sh.cfg.srv_r, sh.idle, &format!("handler{}", k)).await;
+                let targets: Vec<usize> = sh.cfg.clients.iter().map(|c| total_of(sh.cfg.tcp, &c.w)).collect();
+                let reads = do_reads(&mut sock, &sh, &sh.cfg.srv_r, &targets, &format!("handler{}", k)).await;
                 with_collect(|c| c.handlers[k] = reads);
                 sock
             });
@@ -389,7 +419,7 @@ impl Protocol for ClientApp {
                 let reads = if cfg.srv_w.is_empty() {
                     vec![]
                 } else {
-                    do_reads(&mut sock, cfg.tcp, &self.me.r, self.sh.idle, &format!("client{}", self.me.id)).await
+                    do_reads(&mut sock, &self.sh, &self.me.r, &[total_of(cfg.tcp, &cfg.srv_w)], &format!("client{}", self.me.id)).await
                 };
                 with_collect(|c| {
                     c.clients.insert(self.me.id, reads);
@@ -408,6 +438,11 @@ impl Protocol for ClientApp {
     fn demux(&self, _m: Message, _c: Arc<dyn Session>, _ctl: Control, _ma: Arc<Machine>) -> Result<(), DemuxError> {
         Ok(())
     }
+}
+
+/// experiments only: C02_IDLE_MS overrides the readers' silence bound
+fn idle_override() -> Option<Duration> {
+    std::env::var("C02_IDLE_MS").ok().and_then(|v| v.parse().ok()).map(Duration::from_millis)
 }
 
 fn mix(seed: u64, idx: u64, salt: u64) -> u64 {
@@ -461,7 +496,10 @@ fn child(case: &str) -> ! {
         let sh = Arc::new(Shared {
             cfg: cfg.clone(),
             clients_done: Semaphore::new(0),
-            idle: if paused { Duration::from_millis(3000) } else { Duration::from_millis(350) },
+            // virtual time costs nothing: wait long (TCP under loss and reordering may stall for seconds);
+            // real time: stop 300 ms after an expected total is complete, else after 8 s of silence
+            idle_short: idle_override().unwrap_or(if paused { Duration::from_millis(30000) } else { Duration::from_millis(300) }),
+            idle: idle_override().unwrap_or(if paused { Duration::from_millis(30000) } else { Duration::from_millis(8000) }),
         });
         let mut machines = vec![];
         if cfg.arp {
@@ -656,19 +694,18 @@ fn judge_stream(v: &mut Verdict, cfg: &Cfg, what: &str, sender: usize, w: &[(usi
 fn judge_dgrams(v: &mut Verdict, what: &str, sender: usize, w: &[(usize, u64)], reads: &[(usize, Vec<u8>)], copies: usize) {
     let mut seen = vec![0usize; w.len()];
     for (_, b) in reads {
-        let hit = (0..w.len()).find(|k| w[*k].0 == b.len() && *b == payload(sender, write_start(false, w, *k), w[*k].0));
-        match hit {
-            Some(k) => {
-                seen[k] += 1;
-                if seen[k] > copies {
-                    v.fails.push(format!("{}: datagram {} delivered {} times (the link delivered at most {} copies)", what, k, seen[k], copies));
-                    stat("oracle dgram duplicated");
-                }
-            }
-            None => {
-                v.fails.push(format!("{}: a datagram of {} bytes is none of the sent datagrams", what, b.len()));
-                stat("oracle dgram corrupt");
-            }
+        let cands: Vec<usize> = (0..w.len()).filter(|k| w[*k].0 == b.len() && *b == payload(sender, write_start(false, w, *k), w[*k].0)).collect();
+        if cands.is_empty() {
+            v.fails.push(format!("{}: a datagram of {} bytes is none of the sent datagrams", what, b.len()));
+            stat("oracle dgram corrupt");
+            continue;
+        }
+        // identical datagrams (same length, 1 byte) are interchangeable: charge the least used one
+        let k = *cands.iter().min_by_key(|k| seen[**k]).unwrap();
+        seen[k] += 1;
+        if seen[k] > copies {
+            v.fails.push(format!("{}: datagram {} delivered {} times (the link delivered at most {} copies)", what, k, seen[k], copies));
+            stat("oracle dgram duplicated");
         }
     }
     let lost = seen.iter().filter(|x| **x == 0).count();
@@ -679,43 +716,65 @@ fn judge_dgrams(v: &mut Verdict, what: &str, sender: usize, w: &[(usize, u64)], 
     }
 }
 
-/// which sender's pattern do these bytes carry?  Streams: decided on the first (up to 64) bytes, preferring the
-/// unique sender whose stream STARTS like that, else the longest match at any write start (writes may be
-/// permuted).  Datagrams: the first datagram, compared whole with every sent datagram.
-fn attribute(cfg: &Cfg, reads: &[(usize, Vec<u8>)], senders: &[(usize, Vec<(usize, u64)>)]) -> Option<usize> {
-    let first: Vec<u8> = if cfg.tcp {
-        reads.iter().flat_map(|r| r.1.iter().cloned()).take(64).collect()
-    } else {
-        reads.iter().map(|r| r.1.clone()).find(|b| !b.is_empty()).unwrap_or_default()
-    };
-    if first.is_empty() {
-        return None;
+/// How many of the bytes read are explained by sender s: greedy walk, whole unused writes first, else the
+/// longest run (>= 4 bytes) from the start of an unused write.
+fn explained(tcp: bool, got: &[u8], s: usize, w: &[(usize, u64)]) -> usize {
+    let mut used = vec![false; w.len()];
+    let mut i = 0;
+    let mut n = 0;
+    while i < got.len() {
+        let run = |st: usize| got[i..].iter().enumerate().take_while(|(j, b)| **b == pat(s, st + j)).count();
+        let mut best: Option<(usize, usize)> = None; // (write, matched)
+        for k in 0..w.len() {
+            if used[k] {
+                continue;
+            }
+            let l = run(write_start(tcp, w, k)).min(if tcp { usize::MAX } else { w[k].0 });
+            if l >= 4.min(w[k].0) && l > 0 && best.map(|b| l > b.1).unwrap_or(true) {
+                best = Some((k, l));
+            }
+        }
+        match best {
+            Some((k, l)) => {
+                used[k] = true;
+                n += l;
+                i += l;
+            }
+            None => i += 1,
+        }
     }
-    let run = |s: usize, st: usize| first.iter().enumerate().take_while(|(i, b)| **b == pat(s, st + i)).count();
+    n
+}
+
+/// which sender's pattern do these bytes carry?  The sender that explains most of them (at least one byte in
+/// eight); the first byte of a stream / datagram names its sender, which settles very short ones.
+fn attribute(cfg: &Cfg, reads: &[(usize, Vec<u8>)], senders: &[(usize, Vec<(usize, u64)>)]) -> Option<usize> {
+    let mut score: Vec<(usize, usize)> = vec![];
+    let mut total = 0;
     if cfg.tcp {
-        let at_start: Vec<usize> = senders.iter().filter(|(s, w)| !w.is_empty() && run(*s, 0) == first.len()).map(|x| x.0).collect();
-        if at_start.len() == 1 {
-            return Some(at_start[0]);
+        let got: Vec<u8> = reads.iter().flat_map(|r| r.1.iter().cloned()).collect();
+        total = got.len();
+        for (s, w) in senders {
+            score.push((explained(true, &got, *s, w), *s));
         }
     } else {
         for (s, w) in senders {
-            for k in 0..w.len() {
-                if w[k].0 == first.len() && run(*s, write_start(false, w, k)) == first.len() {
-                    return Some(*s);
-                }
+            let mut n = 0;
+            for r in reads {
+                n += explained(false, &r.1, *s, w);
             }
+            score.push((n, *s));
         }
+        total = reads.iter().map(|r| r.1.len()).sum();
     }
-    let mut best: Option<(usize, usize)> = None;
-    for (s, w) in senders {
-        for k in 0..w.len() {
-            let l = run(*s, write_start(cfg.tcp, w, k));
-            if l > 0 && best.map(|b| l > b.1).unwrap_or(true) {
-                best = Some((*s, l));
-            }
-        }
+    if total == 0 {
+        return None;
     }
-    best.map(|b| b.0)
+    score.sort();
+    match score.last() {
+        Some((n, s)) if *n * 8 >= total && *n > 0 => Some(*s),
+        _ => None,
+    }
 }
 
 struct Sock;
